@@ -85,6 +85,15 @@ static void offset_case(Reporter& rep, const Paths& in, double delta, int jt, in
     if (verbose) printf("%-18s -> %s\n", rg.name, zstr(z.closed).c_str());
     if (xy(z.closed) != ref) rep.violation("C15", key(rg.name), "geometry_differs_between_builds", "offset: USINGZ " + pstr(xy(z.closed)) + " plain " + pstr(ref));
   }
+  // per-vertex widths through Execute(DeltaCallback64), negative at an end vertex included
+  for (int mode = 1; mode <= 3; ++mode) {
+    cur_reg = "delta_callback_" + std::to_string(mode);
+    CL::ClipperOffset c2(ml, arc, false, false); c2.AddPaths(vfc::to64(in), (CL::JoinType)jt, (CL::EndType)et); CL::Paths64 s2;
+    c2.Execute([&](const CL::Path64& path, const CL::PathD&, size_t curr, size_t) { return offset_cb_width(delta, mode, curr, path.size()); }, s2); rep.add("lib_calls");
+    ZOut z = z_offset_cb(label(in, 1, false), delta, jt, et, ml, arc, mode); rep.add("lib_calls"); rep.add("cases"); rep.add("compared"); if (!s2.empty()) rep.add("nontrivial");
+    if (verbose) printf("%-18s -> %s\n", cur_reg.c_str(), zstr(z.closed).c_str());
+    if (xy(z.closed) != vfc::from64(s2)) rep.violation("C15", key(cur_reg), "geometry_differs_between_builds", "offset with delta callback: USINGZ " + pstr(xy(z.closed)) + " plain " + pstr(vfc::from64(s2)));
+  }
   rep.current_case = nullptr;
 }
 
